@@ -12,6 +12,7 @@ require (
 )
 
 require (
+	github.com/anishathalye/porcupine v1.3.0
 	github.com/beorn7/perks v1.0.1 // indirect
 	github.com/btcsuite/btcd/chaincfg/chainhash v1.0.1 // indirect
 	github.com/cespare/xxhash/v2 v2.3.0 // indirect
